@@ -75,8 +75,18 @@ def cmd_check(args):
         for o in r['obligations']:
             if prop in o['props']:
                 obligations.append(o)
+            elif pcfg.get('all_slots'):
+                # a totality property: every function under contract counts, for its safety obligations (callee
+                # preconditions incl. unwrap / index / vx_unreachable, overflow, division, termination); a failed
+                # functional clause of another property leaves this property undecided for that function
+                if o['status'] == 'failed' and o.get('kind') in ('postcondition', 'invariant'):
+                    undecided.append('%s: functional obligation %s fails (property %s); safety of the function is not re-established' % (r['unit'], o['id'], ','.join(o['props'])))
+                else:
+                    o2 = dict(o)
+                    o2['props'] = list(o['props']) + [prop]
+                    obligations.append(o2)
         for s in r['slots']:
-            if prop in s['props']:
+            if prop in s['props'] or pcfg.get('all_slots'):
                 s2 = dict(s)
                 s2['unit'] = r['unit']
                 slots.append(s2)
